@@ -106,6 +106,10 @@ func (n *MixedValueNode) ASTNode() (schema.ASTNode, error) {
 		an.SchemaType = json.TypeMixed.String()
 	}
 	an.Value = n.value
+	if len(n.types) > 1 {
+		// The amount of blank space around "|" is a matter of layout.
+		an.Value = strings.Join(n.types, " | ")
+	}
 	return an, nil
 }
 
